@@ -125,3 +125,36 @@ Proof.
     unfold w_z, n_p, n_s, kpp, refractive_index, beam_refractive_index, index, pp_k_pp. pose proof (COS_bound t). lra.
   - eexists. apply (optimum_idler_some index Type2_e_eo Ordinary Ordinary 0 t 2 1 (1, 1) (1, 1) PPOff); lra.
 Qed.
+
+(* non-vacuity with poling: constant index 3/2, wavelengths 1 and 2, signal polar angle 1/10.
+   period 10, positive sign: closing vector still forward (hypotheses of C03_parallel);
+   period 1/2, positive sign, counter-propagating: closing vector backward (hypotheses of C03_parallel_counter) *)
+Lemma nonvacuous_poled :
+  let index := fun (_ : R) (_ : vec) (_ : polarization) => 3 / 2 in
+  (pp_defined (PPOn 10 true) /\ - (PI / 2) < 1 / 10 < PI / 2) /\
+  0 < vz (closing_vector index (beam_new Ordinary 0 (1 / 10) 2 (1, 1)) (pump_new Ordinary 1 (1, 1)) (PPOn 10 true)) /\
+  (exists i, optimum_idler index Type2_e_eo false (beam_new Ordinary 0 (1 / 10) 2 (1, 1)) (pump_new Ordinary 1 (1, 1)) (PPOn 10 true) = Some i) /\
+  pp_defined (PPOn (1 / 2) true) /\
+  vz (closing_vector index (beam_new Ordinary 0 (1 / 10) 2 (1, 1)) (pump_new Ordinary 1 (1, 1)) (PPOn (1 / 2) true)) < 0 /\
+  (exists i, optimum_idler index Type2_e_eo true (beam_new Ordinary 0 (1 / 10) 2 (1, 1)) (pump_new Ordinary 1 (1, 1)) (PPOn (1 / 2) true) = Some i).
+Proof.
+  intros index.
+  assert (Hth : - (PI / 2) < 1 / 10 < PI / 2) by (pose proof PI_RGT_0; pose proof PI2_3_2; unfold PI2 in *; lra).
+  pose proof (Kq_pos (1 / 10) 2 ltac:(lra) (range_pi _ Hth)) as HK.
+  pose proof (COS_bound (1 / 10)) as Hc. pose proof (cos_pos_of_range _ Hth) as Hcp.
+  assert (H10 : pp_defined (PPOn 10 true)) by (cbn; lra). assert (H12 : pp_defined (PPOn (1 / 2) true)) by (cbn; lra).
+  split; [split; assumption|]. split; [|split; [|split; [exact H12 | split]]].
+  - change (0 < vz (closing_vector index (sigb Ordinary 0 (1 / 10) 2 (1, 1)) (pumpb Ordinary 1 (1, 1)) (PPOn 10 true))).
+    rewrite (closing_z index Ordinary Ordinary 0 (1 / 10) 2 1 (1, 1) (1, 1) (PPOn 10 true) ltac:(lra) ltac:(lra) H10).
+    apply Rmult_lt_0_compat; [exact HK|].
+    unfold w_z, n_p, n_s, kpp, refractive_index, beam_refractive_index, index. rewrite pp_k_pp_eq. unfold sign_val.
+    replace (2 / (1 * 10)) with (1 / 5) by field. lra.
+  - eexists. apply (optimum_idler_some index Type2_e_eo Ordinary Ordinary 0 (1 / 10) 2 1 (1, 1) (1, 1) (PPOn 10 true)); lra.
+  - change (vz (closing_vector index (sigb Ordinary 0 (1 / 10) 2 (1, 1)) (pumpb Ordinary 1 (1, 1)) (PPOn (1 / 2) true)) < 0).
+    rewrite (closing_z index Ordinary Ordinary 0 (1 / 10) 2 1 (1, 1) (1, 1) (PPOn (1 / 2) true) ltac:(lra) ltac:(lra) H12).
+    assert (w_z index Ordinary Ordinary 0 (1 / 10) 2 1 (1, 1) (1, 1) (PPOn (1 / 2) true) < 0).
+    { unfold w_z, n_p, n_s, kpp, refractive_index, beam_refractive_index, index. rewrite pp_k_pp_eq. unfold sign_val.
+      replace (2 / (1 * (1 / 2))) with 4 by field. lra. }
+    nra.
+  - eexists. apply (optimum_idler_some index Type2_e_eo Ordinary Ordinary 0 (1 / 10) 2 1 (1, 1) (1, 1) (PPOn (1 / 2) true)); lra.
+Qed.
